@@ -153,9 +153,14 @@ func runA(o *vh.Out, q, text string) {
 	// property oracle on the implementation, independent of the model: when there is no error
 	// the parts re-render to the reading `(char | $$ | ${e})*` of the text (refSplit)
 	if !strings.HasPrefix(impl, "PANIC") && impl != "NOTLIT" && strings.HasSuffix(impl, " -") {
-		want, ok := refItems(text)
+		want, ok := refItems(text, false)
 		got := implItems(strings.TrimSuffix(impl, " -"), text)
-		if ok && got != want {
+		if !ok {
+			// the grammar reading fails but the implementation reports nothing: acceptable only
+			// as the lenient reading (a stray `$` / an unterminated `${` standing for itself)
+			want, _ = refItems(text, true)
+		}
+		if got != want {
 			o.Oracle("split-differs-from-grammar", caseA(q, text), "impl "+got+" want "+want)
 		}
 	}
@@ -174,7 +179,7 @@ func min2(a, b int) int {
 
 // refItems: one left-to-right pass, independent of the Go code and of the Lean model.
 // Items: bytes as hex, holes as <a:b>.  ok=false: the literal is erroneous.
-func refItems(text string) (string, bool) {
+func refItems(text string, lenient bool) (string, bool) {
 	var sb strings.Builder
 	i := 0
 	sawSpecial := strings.Contains(text, "$$") || strings.Contains(text, "${")
@@ -197,12 +202,17 @@ func refItems(text string) (string, bool) {
 			}
 			j := strings.IndexByte(text[i+2:], '}')
 			if j < 0 {
+				if lenient {
+					sb.WriteString("24")
+					i++
+					continue
+				}
 				return "", false
 			}
 			fmt.Fprintf(&sb, "<%d:%d>", i+2, i+2+j)
 			i = i + 2 + j + 1
 		default:
-			if sawSpecial {
+			if sawSpecial && !lenient {
 				return "", false
 			}
 			// no `$$` / `${` anywhere: every `$` stands for itself
@@ -254,10 +264,15 @@ var strVars = []struct{ name, val string }{
 	{"s0", "x"}, {"s1", "héllo"}, {"s2", ""}, {"s3", "$"}, {"s4", "a}b{"}, {"s5", "${s0}"}, {"s6", "line\nbreak"},
 }
 
-const preludeB = `import (
-	"errors"
-	"strconv"
-)
+const preludeB = `import "strconv"
+
+type myErr struct {
+	msg string
+}
+
+func (e *myErr) Error() string {
+	return e.msg
+}
 
 var ev []int
 
@@ -283,7 +298,7 @@ func ps(id int, s string) string {
 
 func pe(id int, s string) error {
 	ev = append(ev, id)
-	return errors.New(s)
+	return &myErr{s}
 }
 
 type tag struct {
